@@ -30,8 +30,62 @@ CLAUSES = [
      ["SCoda.AbsTie2.cutoff_eq", "SCoda.AbsTie2.cutoff_init", "SCoda.AbsTie2.pairings_eq"]),
 ]
 RULE = ("well-formed multi-channel sequences (<=8 notes, ticks<200) x n in {below, at, above duration} / (m, r<=m) / k in 1..8 / "
-        "channel 0..15; non-trivial = at least one note and for cutoff a note longer than m")
+        "channel 0..15; cutoff also on lists whose same-tick messages are stored in random order; all four operations and the default call "
+        "scale(k) through the Sequence wrapper from every wrapper state (rel, abs, both, stale-rel, stale-abs, churned, an absolute list given "
+        "or entered message by message with shuffled ties), both views read off the object itself in either order; "
+        "non-trivial = at least one note and for cutoff a note longer than m")
 ASSUMPTIONS = ["models: SCoda.pad, SCoda.cutoff, SCoda.scaleRel, SCoda.setChannel, tied by correspondence"]
+
+
+WRAP_STATES = ["rel", "abs", "both", "stale-rel", "stale-abs", "churned", "abs-given", "abs-insort"]
+OBS = " ## observed="
+
+
+def _strip(m):
+    """a plain message without its time (so that absolute and relative messages of the same event compare equal)"""
+    return tuple(-1 if x is None else x for x in (m[0], m[1]) + tuple(m[3:]))
+
+
+def _events(timed):
+    return sorted((t,) + _strip(m) for t, m in timed)
+
+
+def _canon(a):
+    return sorted(a, key=lambda m: (m[2], m[1], m[0], -1 if m[3] is None else m[3]))
+
+
+def _with_obs(text, observed):
+    """failure detail = prose + the observed plain data (known-finding predicates judge the OUTCOME from it)"""
+    import json
+    return text + OBS + json.dumps(observed)
+
+
+def observed_of(f):
+    import json
+    d = f.get("detail") or ""
+    if OBS not in d:
+        return None
+    try:
+        return json.loads(d.split(OBS, 1)[1])
+    except Exception:
+        return None
+
+
+def cutoff_expect(timed, m_, r):
+    """`timed`: (tick, msg) of a well-formed list in canonical order.  Returns (expected notes by the property text, the timed events with
+    exactly the note-offs of the notes longer than m re-timed to on + r): harness-side re-implementation of the property text"""
+    open_, out = {}, []
+    for t, m in timed:
+        if m[TY] == ON:
+            open_[(m[CH], m[NOTE])] = t
+            out.append((t, m))
+        elif m[TY] == OFF and (m[CH], m[NOTE]) in open_:
+            on = open_.pop((m[CH], m[NOTE]))
+            out.append((on + r if t - on > m_ else t, m))
+        else:
+            out.append((t, m))
+    exp_notes = sorted((c, p, on, (on + r if off - on > m_ else off), v) for (c, p, on, off, v) in notes_of(timed))
+    return exp_notes, out
 
 
 def o_pad(inp):
@@ -53,49 +107,73 @@ def o_pad(inp):
 def o_cutoff(inp):
     a = [tuple(m) for m in inp["abs"]]
     m_, r = inp["m"], inp["r"]
-    pre, _ = abs_timed(sorted(a, key=lambda m: (m[2], m[1], m[0], -1 if m[3] is None else m[3])))
+    pre, _ = abs_timed(_canon(a))       # expectations are read off the canonical order, whatever order the ties were entered in
     if wf_violations(pre) or any(on >= off for (_, _, on, off, _) in notes_of(pre)) or not (0 <= r <= m_):
         return [("~skip:outside-domain", "")]
     s = P.mk_abs(a)
     s.cutoff(m_, r)
     out = [from_real(x) for x in s._messages]
-    tin, _ = abs_timed(a)
     tout, _ = abs_timed(out)
-    exp = sorted((c, p, on, (on + r if off - on > m_ else off), v) for (c, p, on, off, v) in notes_of(tin))
+    exp, exp_timed = cutoff_expect(pre, m_, r)
     got = sorted(notes_of(sorted(tout, key=lambda x: x[0])))
     fails = []
     # pair notes by (ch, pitch, on): durations as expected
-    if sorted(exp) != sorted(got):
-        fails.append(("cutoff-notes", f"expected {exp}, got {got}"))
-    if non_note(tin) != non_note(tout):
+    if exp != got:
+        fails.append(("cutoff-notes", _with_obs(f"expected {exp}, got {got}", _events(tout))))
+    if non_note(pre) != non_note(tout):
         fails.append(("cutoff-others", "non-note events changed"))
+    if [m[TIME] for m in out] != sorted(m[TIME] for m in out):
+        fails.append(("cutoff-sorted", f"result not sorted by time: {[m[TIME] for m in out][:12]}"))
+    if [m for m in out if m[TY] == INTERNAL] != [m for m in a if m[TY] == INTERNAL]:
+        fails.append(("cutoff-others", "the INTERNAL cap changed"))
     return fails
 
 
 def o_scale(inp):
     rel = [tuple(m) for m in inp["rel"]]
     k = inp["k"]
+    observed = None
+    fails = []
     if inp.get("aliased"):
-        sq = P.seq_aliased(rel, inp["aliased"])         # the content is `rel` repeated; every message object occurs that often
-        rel = rel * inp["aliased"]
+        # the content is `rel` repeated; every message OBJECT occurs that often (what `s.concatenate([p, p])` builds: known finding D24b);
+        # the result is read off the object's own relative list (no copy: a copy would give every occurrence its own object)
+        reps = inp["aliased"]
+        sq = P.seq_aliased(rel, reps)
+        rel = rel * reps
         sq.scale(k, quantise_afterwards=False)
-        out = P.content_of(sq)
+        out = [from_real(m) for m in sq.rel._messages]
+        observed = out
     elif inp.get("default_call"):
-        # `seq.scale(k)` as a caller writes it: quantise_afterwards defaults to True
-        sq = P.seq_of_rel(rel)
+        # `seq.scale(k)` as a caller writes it: quantise_afterwards defaults to True (known finding D25).  The call must be exactly
+        # scale(k, quantise_afterwards=False) followed by quantise_and_normalise(): that second object is built from the generator's data
+        # scaled HERE, and then runs the library's quantise_and_normalise (quantise / quantise_note_lengths / normalise are the subject of
+        # C05 / C06 / C07; re-implementing all three here is not feasible, so this expectation does use them — on a fresh, independent object)
+        sq = P.seq_in_state(rel, inp.get("state", "rel"))
         sq.scale(k)
-        out = P.content_of(sq)
+        out = [from_real(m) for m in sq.rel._messages]
+        out_abs = [from_real(m) for m in sq.abs._messages]
+        ref = P.seq_of_rel([(m[0], m[1], m[2] * k) + tuple(m[3:]) if m[0] == WAIT else m for m in rel])
+        ref.quantise_and_normalise()
+        ref_rel = [from_real(m) for m in ref.rel._messages]
+        same = (_events(rel_timed(out)[0]), rel_timed(out)[1]) == (_events(rel_timed(ref_rel)[0]), rel_timed(ref_rel)[1])
+        if not same:
+            fails.append(("scale-default", f"scale({k}) is not scale({k}, quantise_afterwards=False) followed by quantise_and_normalise(): "
+                          f"got {out[:8]}, the two calls give {ref_rel[:8]}"))
+        if (_events(abs_timed(out_abs)[0]), abs_timed(out_abs)[1] if out_abs else 0) != (_events(rel_timed(out)[0]), rel_timed(out)[1]):
+            fails.append(("scale-default", f"after scale({k}) the two views differ"))
+        observed = {"is_scale_then_quantise_and_normalise": not fails}
     else:
         s = P.mk_rel(rel)
         s.scale(k)
         out = [from_real(m) for m in s._messages]
     tin, din = rel_timed(rel)
     tout, dout = rel_timed(out)
-    fails = []
-    if [(t * k, m) for t, m in tin] != tout:
-        fails.append(("scale-events", "events are not the originals at k times their tick"))
+    exp = [(t * k, m) for t, m in tin]
+    # (after the default call the result went through a sort: same-tick events may come in another order, which is not an event change)
+    if (exp != tout) if not inp.get("default_call") else (_events(exp) != _events(tout)):
+        fails.append(("scale-events", _with_obs("events are not the originals at k times their tick", observed)))
     if dout != din * k:
-        fails.append(("scale-duration", f"duration {dout}, expected {din * k}"))
+        fails.append(("scale-duration", _with_obs(f"duration {dout}, expected {din * k}", observed)))
     if not all_int_times(out):
         fails.append(("scale-int", "non-integer tick after integer scaling"))
     return fails
@@ -111,42 +189,89 @@ def o_channel(inp):
     return [] if out == exp else [("channel", "set_channel changed something other than the channel")]
 
 
-def o_wrapper(inp):
-    """the same four operations through the Sequence wrapper, from each freshness state, observed through BOTH views"""
+def _build(inp):
+    """a Sequence in the wrapper state asked for, built from the input's plain data only; returns (sequence, timed events, duration, canonical
+    relative list): the content is given EITHER as a relative list (`rel`, states of pyimpl.seq_in_state) OR as an absolute list whose same-tick
+    messages are in any order (`abs`; 'abs-given': handed to the constructor as it is, 'abs-insort': entered message by message)"""
     from scoda.sequences.sequence import Sequence
+    state = inp["state"]
+    if inp.get("abs") is not None:
+        a = [tuple(m) for m in inp["abs"]]
+        s = Sequence(absolute_sequence=P.mk_abs(a)) if state == "abs-given" else P.seq_of_abs_insort(a)
+        tin, din = abs_timed(_canon(a))
+        return s, tin, din, G.abs_to_rel(_canon(a))
     rel = [tuple(m) for m in inp["rel"]]
-    op, args, state = inp["op"], inp["args"], inp["state"]
-    s = P.seq_of_rel(rel)
-    if state == "abs":
-        s = Sequence(absolute_sequence=s.abs.copy())
-    elif state == "both":
-        s.refresh()
     tin, din = rel_timed(rel)
-    try:
-        if op == "pad":
-            s.pad(args[0]); exp_t, exp_d = tin, max(din, args[0])
-        elif op == "scale":
-            s.scale(args[0], quantise_afterwards=False); exp_t, exp_d = [(t * args[0], m) for t, m in tin], din * args[0]
-        elif op == "channel":
-            s.set_channel(args[0]); exp_t, exp_d = [(t, (m[0], args[0]) + tuple(m[2:])) for t, m in tin], din
-        else:
-            return []
-    except Exception as e:
-        return [("wrapper-raises", f"{op} from state {state}: {type(e).__name__}: {e}")]
+    return P.seq_in_state(rel, state), tin, din, rel
+
+
+def o_wrapper(inp):
+    """the four operations (and the default call of scale) through the Sequence wrapper, from every freshness state, observed through BOTH
+    views of the object itself (read directly, in either order, on two identically built objects — not through copy())"""
+    op, args, state = inp["op"], inp["args"], inp["state"]
     fails = []
-    key = lambda lst: sorted((t,) + tuple(-1 if x is None else x for x in (m[0], m[1]) + tuple(m[3:])) for t, m in lst)  # noqa
-    for view in ("abs", "rel"):
-        c = s.copy()
-        if view == "abs":
-            got_t, got_d = abs_timed([from_real(m) for m in c.abs._messages])
-            if not c.abs._messages:
-                got_d = 0
-        else:
-            got_t, got_d = rel_timed([from_real(m) for m in c.rel._messages])
-        if key(got_t) != key(exp_t):
-            fails.append((f"{op}-wrapper", f"{op}{args} from state '{state}': the {view} view does not show the effect"))
-        if got_d != exp_d:
-            fails.append((f"{op}-wrapper", f"{op}{args} from state '{state}': duration {got_d} through the {view} view, expected {exp_d}"))
+    for order in ("abs-first", "rel-first"):
+        try:
+            s, tin, din, rel = _build(inp)
+        except Exception as e:
+            return [("~skip:state-not-constructible", f"{type(e).__name__}")]
+        exp_notes = None
+        try:
+            if op == "pad":
+                s.pad(args[0]); exp_t, exp_d = tin, max(din, args[0])
+            elif op == "scale":
+                s.scale(args[0], quantise_afterwards=False); exp_t, exp_d = [(t * args[0], m) for t, m in tin], din * args[0]
+            elif op == "channel":
+                s.set_channel(args[0]); exp_t, exp_d = [(t, (m[0], args[0]) + tuple(m[2:])) for t, m in tin], din
+            elif op == "cutoff":
+                m_, r = args
+                canon = sorted(tin, key=lambda x: (x[0], x[1][1], x[1][0], -1 if x[1][3] is None else x[1][3]))
+                if wf_violations(canon) or any(on >= off for (_, _, on, off, _) in notes_of(canon)) or not (0 <= r <= m_):
+                    return [("~skip:outside-domain", "")]
+                s.cutoff(m_, r)
+                exp_notes, exp_t = cutoff_expect(canon, m_, r)
+                # the duration: the property does not mention it; what must hold is that it is the last tick anything is left on (the end of the
+                # trailing rest, if the content had one, else the last event)
+                has_cap = (inp.get("abs") is not None and any(m[0] == INTERNAL for m in inp["abs"])) or \
+                          (inp.get("abs") is None and len(rel) > 0 and rel[-1][0] == WAIT)
+                exp_d = max([t for t, _ in exp_t] + ([din] if has_cap else []) + [0])
+            elif op == "scale-default":
+                k = args[0]
+                s.scale(k)
+                # = scale(k, False) then quantise_and_normalise(), run as two calls on a fresh object built from data scaled here (see o_scale)
+                ref = P.seq_of_rel([(m[0], m[1], m[2] * k) + tuple(m[3:]) if m[0] == WAIT else m for m in rel])
+                ref.quantise_and_normalise()
+                exp_t, exp_d = rel_timed([from_real(m) for m in ref.rel._messages])
+            else:
+                return [("~skip:unknown-op", op)]
+        except Exception as e:
+            return [("wrapper-raises", f"{op} from state {state}: {type(e).__name__}: {e}")]
+        views = {}
+        try:
+            for view in (("abs", "rel") if order == "abs-first" else ("rel", "abs")):
+                if view == "abs":
+                    msgs = [from_real(m) for m in s.abs._messages]
+                    views["abs"] = abs_timed(msgs) + (msgs,)
+                else:
+                    msgs = [from_real(m) for m in s.rel._messages]
+                    views["rel"] = rel_timed(msgs) + (msgs,)
+        except Exception as e:
+            return [("wrapper-raises", f"reading after {op} from state {state}: {type(e).__name__}: {e}")]
+        for view in ("abs", "rel"):
+            got_t, got_d, msgs = views[view]
+            if _events(got_t) != _events(exp_t):
+                fails.append((f"{op}-wrapper", _with_obs(f"{op}{args} from state '{state}': the {view} view (read {order}) does not show the effect: "
+                                                         f"expected {_events(exp_t)[:8]}, got {_events(got_t)[:8]}", _events(got_t))))
+            if exp_notes is not None and sorted(notes_of(got_t)) != exp_notes:
+                # the notes a reader pairs off the view in its stored order (for r = 0 the note-off sits before its note-on: D22)
+                fails.append(("cutoff-wrapper-notes", _with_obs(f"cutoff{args} from state '{state}': the {view} view (read {order}) pairs into notes "
+                                                                f"{sorted(notes_of(got_t))}, expected {exp_notes}", _events(got_t))))
+            if got_d != exp_d:
+                fails.append((f"{op}-wrapper-duration", f"{op}{args} from state '{state}': duration {got_d} through the {view} view (read {order}), expected {exp_d}"))
+            if not all_int_times(msgs):
+                fails.append((f"{op}-wrapper-int", f"{op}{args} from state '{state}': non-integer tick in the {view} view"))
+        if fails:
+            break
     return fails
 
 
@@ -158,35 +283,70 @@ def setup(ctx):
     ctx.oracle("channel", o_channel)
 
     def kf_d22(f):
-        # cutoff with a replacement length of 0: the shortened note has its note-off on the tick of its note-on
-        return f["oracle"] == "cutoff" and f["clause"] == "cutoff-notes" and f["input"]["r"] == 0
+        # cutoff with a replacement length of 0: every shortened note has its note-off ON the tick of its note-on and the sort puts it before
+        # the note-on.  Known only when the OUTCOME is exactly that: the observed timed events are the input's with precisely the note-offs of
+        # the notes longer than m moved to their onsets and nothing else changed (a version that cuts to m instead, or moves another message,
+        # is not this finding)
+        inp = f["input"]
+        if f["oracle"] == "cutoff" and f["clause"] == "cutoff-notes" and inp["r"] == 0:
+            timed = abs_timed(_canon([tuple(m) for m in inp["abs"]]))[0]
+            m_ = inp["m"]
+        elif f["oracle"] == "wrapper" and f["clause"] == "cutoff-wrapper-notes" and inp["op"] == "cutoff" and inp["args"][1] == 0:
+            if inp.get("abs") is not None:
+                timed = abs_timed(_canon([tuple(m) for m in inp["abs"]]))[0]
+            else:
+                timed = rel_timed([tuple(m) for m in inp["rel"]])[0]
+                timed = sorted(timed, key=lambda x: (x[0], x[1][1], x[1][0], -1 if x[1][3] is None else x[1][3]))
+            m_ = inp["args"][0]
+        else:
+            return False
+        obs = observed_of(f)
+        _, pred = cutoff_expect(timed, m_, 0)
+        moved = any(t2 != t1 for (t1, _), (t2, _) in zip(timed, pred))
+        return obs is not None and moved and [list(x) for x in _events(pred)] == [list(x) for x in obs]
     ctx.kf_predicates["D22"] = kf_d22
 
     def kf_d24b(f):
-        return f["oracle"] == "scale" and bool(f["input"].get("aliased"))
+        # scale on a sequence whose message objects occur n times: known only for the two clauses the sharing breaks, and only when the outcome
+        # is the per-occurrence effect — every wait multiplied by k once per occurrence (k ** n), every other message untouched
+        inp = f["input"]
+        if not (f["oracle"] == "scale" and inp.get("aliased") and inp["aliased"] >= 2 and f["clause"] in ("scale-events", "scale-duration")):
+            return False
+        n, k = inp["aliased"], inp["k"]
+        pred = [list((m[0], m[1], m[2] * k ** n) + tuple(m[3:])) if m[0] == WAIT else list(m) for m in [tuple(x) for x in inp["rel"]] * n]
+        return k > 1 and observed_of(f) == pred
     ctx.kf_predicates["D24b"] = kf_d24b
 
     def kf_d25(f):
-        # the default call scale(k) re-quantises and normalises afterwards
-        return f["oracle"] == "scale" and bool(f["input"].get("default_call")) and f["clause"] in ("scale-events", "scale-duration")
+        # the default call scale(k) re-quantises and normalises afterwards: known only for the literal 'x k' clauses and only when the oracle
+        # found the outcome to BE scale(k, False) followed by quantise_and_normalise() (anything else raises clause scale-default, never known)
+        obs = observed_of(f)
+        return f["oracle"] == "scale" and bool(f["input"].get("default_call")) and f["clause"] in ("scale-events", "scale-duration") \
+            and isinstance(obs, dict) and obs.get("is_scale_then_quantise_and_normalise") is True
     ctx.kf_predicates["D25"] = kf_d25
 
 
 D24B_EXAMPLE = {"rel": [G.pm(ON, 0, None, note=60, vel=64), G.pm(WAIT, 0, 12), G.pm(OFF, 0, None, note=60), G.pm(WAIT, 0, 12)], "k": 2, "aliased": 2}
 D25_EXAMPLE = {"rel": [G.pm(ON, 0, None, note=60, vel=64), G.pm(WAIT, 0, 30), G.pm(OFF, 0, None, note=60), G.pm(WAIT, 0, 10),
                        G.pm(ON, 0, None, note=60, vel=64), G.pm(WAIT, 0, 5), G.pm(OFF, 0, None, note=60)], "k": 2, "default_call": True}
+# note 60 [0,30) and [40,45); cutoff(10, 0)
+D22_EXAMPLE = {"abs": G.notes_to_abs([(0, 60, 0, 30, 64), (0, 60, 40, 5, 64)]), "m": 10, "r": 0}
 
 
 def generate(ctx):
     rng = ctx.rng
     ctx.check("scale", D24B_EXAMPLE)        # recorded instances of the known findings
     ctx.check("scale", D25_EXAMPLE)
+    ctx.check("cutoff", D22_EXAMPLE)
     for i in range(ctx.n(150, 4000)):
         rel, notes = G.gen_wf_rel(rng)
         if rng.random() < 0.5:
             rel = G.unconsolidate(rng, rel)
             ctx.count("rel:unconsolidated")
         a, notes2 = G.gen_wf_abs(rng)
+        if rng.random() < 0.4:
+            a = G.shuffle_ties(rng, a)       # entered in another order: same-tick messages not in canonical order
+            ctx.count("cutoff:ties-shuffled")
         _, dur = rel_timed(rel)
         n = rng.choice([0, max(0, dur - 1), dur, dur + 1, dur + rng.randint(1, 100), rng.randint(0, 300)])
         ctx.case(("pad", rel, n), len(notes) > 0)
@@ -203,15 +363,51 @@ def generate(ctx):
         ctx.case(("scale", rel, k), len(notes) > 0 and k > 1)
         ctx.check("scale", {"rel": rel, "k": k})
         ctx.corr("scaleRel", P.op_scaleRel(k, rel))
+        if i % 4 == 0:
+            # `seq.scale(k)` as callers write it (D25), from any wrapper state
+            st = rng.choice(P.SEQ_STATES)
+            ctx.count("scale:default-call")
+            ctx.check("scale", {"rel": rel, "k": k, "default_call": True, "state": st})
+        if i % 4 == 1:
+            # message objects occurring 2 or 3 times (D24b)
+            ctx.count("scale:aliased")
+            ctx.check("scale", {"rel": rel, "k": rng.randint(1, 4), "aliased": rng.choice([2, 2, 3])})
         c = rng.randrange(16)
         ctx.case(("channel", rel, c), len(rel) > 0)
         ctx.check("channel", {"rel": rel, "c": c})
         ctx.corr("setChannel", P.op_setChannel(c, rel))
-        for op, args in (("pad", [n]), ("scale", [k]), ("channel", [c])):
-            state = rng.choice(["rel", "abs", "both"])
+        # the same operations through the Sequence wrapper: all four (and the default call of scale) from a state drawn from ALL wrapper states;
+        # the content is `rel`, or — for the two abs-* states — an absolute list with shuffled ties
+        m2 = rng.choice([1, 5, 12, 24, 40])
+        r2 = rng.randint(1, m2) if rng.random() < 0.9 else 0
+        a2, notes3 = G.gen_wf_abs(rng)
+        a2 = G.shuffle_ties(rng, a2)
+        for op, args in (("pad", [n]), ("scale", [k]), ("channel", [c]), ("cutoff", [m2, r2]), ("scale-default", [rng.randint(1, 4)])):
+            state = rng.choice(WRAP_STATES)
             ctx.count("wrapper:" + state)
-            ctx.check("wrapper", {"rel": rel, "op": op, "args": args, "state": state})
+            ctx.count("wrapper-op:" + op)
+            if state.startswith("abs-"):
+                inp = {"abs": a2, "op": op, "args": args, "state": state}
+                if op == "pad":
+                    d2 = max([m[2] for m in a2] + [0])
+                    inp["args"] = [rng.choice([0, max(0, d2 - 1), d2, d2 + 1, d2 + rng.randint(1, 100)])]
+            else:
+                inp = {"rel": rel, "op": op, "args": args, "state": state}
+            if op == "cutoff":
+                ctx.case(("wrapper-cutoff", inp.get("abs", inp.get("rel")), m2, r2, state), True)
+            ctx.check("wrapper", inp)
         ctx.sample({"pad": n, "cutoff": [m_, r], "scale": k, "channel": c, "rel": rel[:6]})
+    # complete table on a fixed content: every operation from every wrapper state
+    base = G.notes_to_abs([(5, 60, 0, 30, 64), (5, 62, 24, 12, 80), (5, 60, 30, 6, 70)], extra=[G.pm(TIMESIG, 5, 0, num=3, den=4), G.pm(CC, 5, 24, vel=0, ctl=7)], cap=50)
+    base_sh = list(reversed(base[:2])) + base[2:]       # the two tick-0 messages entered the other way round
+    for state in WRAP_STATES:
+        for op, args in (("pad", [0]), ("pad", [50]), ("pad", [77]), ("scale", [1]), ("scale", [3]), ("channel", [9]), ("cutoff", [10, 4]),
+                         ("cutoff", [6, 6]), ("cutoff", [40, 1]), ("scale-default", [1]), ("scale-default", [2])):
+            ctx.count("wrapper-table")
+            if state.startswith("abs-"):
+                ctx.check("wrapper", {"abs": base_sh, "op": op, "args": args, "state": state})
+            else:
+                ctx.check("wrapper", {"rel": G.abs_to_rel(base), "op": op, "args": args, "state": state})
     # exhaustive small scope: every relative list of <= 2 (quick) / <= 3 (thorough) messages x a few arguments
     for rel in G.enum_rel(3 if ctx.thorough else 2):
         ctx.count("small-scope")
@@ -223,4 +419,3 @@ def generate(ctx):
             ctx.corr("scaleRel", P.op_scaleRel(k, rel))
         ctx.check("channel", {"rel": rel, "c": 3})
         ctx.corr("setChannel", P.op_setChannel(3, rel))
-
